@@ -534,6 +534,10 @@ func run(c *core.Ctx) {
 		}
 		base++
 	}
+
+	// (d) value ladder: every float32 magnitude band through every float slot of a record and every
+	// position component of a mesh
+	k.runValues(base)
 }
 
 // ---------------------------------------------------------------------------------------------
@@ -564,9 +568,16 @@ func (k checker) bytesCaseAs(cs Case, h int, ids []int, big bool) {
 	for i, id := range ids {
 		rs[i] = alpha[id]
 	}
+	k.bytesRecs(cs, h, rs, fmt.Sprintf("bytes/n=%d", len(ids)), fmt.Sprintf("n=%d/header-%s", len(ids), headerNames[h]), true)
+	if len(ids) >= 1 {
+		k.c.Nontrivial("bytes", h, fmt.Sprint(ids), big)
+	}
+}
+
+// bytesRecs runs one well-formed file (header h, records rs) through Read→Write and, when meshPart,
+// ReadMesh→WriteMesh.
+func (k checker) bytesRecs(cs Case, h int, rs []rec, scope, class string, meshPart bool) {
 	in := encodeSTL(headers[h], rs)
-	scope := fmt.Sprintf("bytes/n=%d", len(ids))
-	class := fmt.Sprintf("n=%d/header-%s", len(ids), headerNames[h])
 	what := fmt.Sprintf("header=%s records=%v", headerNames[h], rs)
 	outcome := "ok"
 	bad := func(site, clause, detail string) {
@@ -647,8 +658,11 @@ func (k checker) bytesCaseAs(cs Case, h int, ids []int, big bool) {
 
 	// ReadMesh → WriteMesh → same positions (and the normals ReadMesh exposes)
 	var m *modeling.Mesh
-	o = core.Guard(func() { m, err = stl.ReadMesh(bytes.NewReader(in)) })
+	if meshPart {
+		o = core.Guard(func() { m, err = stl.ReadMesh(bytes.NewReader(in)) })
+	}
 	switch {
+	case !meshPart:
 	case o.Crash():
 		outcome = "crash"
 		k.fail(core.TopFrame(o.Stack), clCrash, class, o.Msg+" @ "+o.Stack, cs)
@@ -699,9 +713,6 @@ func (k checker) bytesCaseAs(cs Case, h int, ids []int, big bool) {
 		}
 	}
 	k.c.Eval(scope, outcome)
-	if len(ids) >= 1 {
-		k.c.Nontrivial("bytes", h, fmt.Sprint(ids), big)
-	}
 	k.c.Sample(scope, map[string]any{"header": headerNames[h], "records": fmt.Sprint(rs), "bytes": len(in)})
 }
 
@@ -741,6 +752,10 @@ func replay(c *core.Ctx) {
 		k.bytesCase(cs.Hdr, cs.Recs, cs.Big)
 	case "ladder":
 		k.ladderCase(cs.Hdr, cs.N, cs.Big)
+	case "value-bytes":
+		k.valueBytesCase(cs.N, cs.NMode)
+	case "value-mesh":
+		k.valueMeshCase(cs.N, cs.Big)
 	default:
 		c.HarnessError("unknown case kind %q", cs.Kind)
 	}
